@@ -108,6 +108,7 @@ def run(tier, replay=None):
     # 4a. walk: exhaustive histories + random long histories, three concretisations
     seed = vlib.seed()
     total_hist = 0
+    distinct = 0          # distinct (leg, concretisation, operation sequence) triples
     by_len = {}
     reached = 0
     for variant in (0, 1, 2):
@@ -120,6 +121,7 @@ def run(tier, replay=None):
         vlib.log("walk %s: %d histories, %d steps, %d no-op steps, %d probes, classes %s" % (
             s["concretisation"], sum(s["histories_by_length"].values()), s["steps"], s["noop_steps"], s["probes"], s["classes"]))
         total_hist += sum(s["histories_by_length"].values())
+        distinct += s["distinct_histories"]
         for k, n in s["histories_by_length"].items():
             by_len[k] = by_len.get(k, 0) + n
         reached = max(reached, s["spec_states_reached_on_impl"])
@@ -136,6 +138,7 @@ def run(tier, replay=None):
         vlib.log("handshake %s: %d histories, %d handshakes, classes %s" % (
             s["concretisation"], sum(s["histories_by_length"].values()), s["handshakes"], s["classes"]))
         total_hist += sum(s["histories_by_length"].values())
+        distinct += s["distinct_histories"]
         hs_total += s["handshakes"]
     # 4c. real worker: HTTPS listener, certificate commands over the channel, TLS over TCP, strict SNI binding
     wk = {}
@@ -146,6 +149,7 @@ def run(tier, replay=None):
         vlib.log("worker %s: %d histories, %s, classes %s" % (s["concretisation"], sum(s["histories_by_length"].values()),
                                                             json.dumps(ws), s["classes"]))
         total_hist += sum(s["histories_by_length"].values())
+        distinct += s["distinct_histories"]
         for k, v in ws.items():
             if isinstance(v, int):
                 wk[k] = wk.get(k, 0) + v
@@ -168,6 +172,7 @@ def run(tier, replay=None):
         if tv["accepted"]:
             n_events += tv["consumed"]
             total_hist += sum(s["histories_by_length"].values())
+            distinct += s["distinct_histories"]
             vlib.log("trace %s: %d events accepted" % (s["concretisation"], tv["consumed"]))
         else:
             m = re.search(r'"FIRST-UNEXPLAINED", (.*)', tv["out"])
@@ -211,10 +216,11 @@ def run(tier, replay=None):
     rep.extra["spec_states_reached_on_impl"] = reached
 
     rep.cov["traces_validated_against_impl"] = total_hist
-    rep.cov["distinct_nontrivial"] = total_hist
+    rep.cov["distinct_nontrivial"] = distinct
     rep.cov["exhaustive"] = True
-    rep.cov["rule"] = ("distinct_nontrivial = distinct operation histories executed on the real CertificateResolver and compared "
-                       "with the spec after every step: every history of state-changing operations (add, remove, replace, "
+    rep.cov["rule"] = ("distinct_nontrivial = distinct (leg, concretisation, operation sequence) triples executed on the real code and "
+                       "compared with the spec after every step, counted by the harness (hash set of operation sequences per run; "
+                       "every history contains at least one operation); histories are: every history of state-changing operations (add, remove, replace, "
                        "replace with an unparsable old fingerprint) of length <= %s over 8 certificate variants on 4 real key "
                        "pairs (x3 concretisations), each followed step-wise by seeded operations the spec says change nothing "
                        "(re-add, remove absent, idempotent / failing replace); plus seeded random histories of length %s; plus "
